@@ -225,6 +225,29 @@ Proof.
   rewrite (Nat.compare_antisym x y). destruct (Nat.compare x y); cbn [CompOpp]; auto.
 Qed.
 
+(* transitivity and trichotomy: with str_compare_eq and str_compare_antisym, strcmp's sign is a strict total order *)
+Lemma str_compare_trans a b c : str_compare a b = Lt -> str_compare b c = Lt -> str_compare a c = Lt.
+Proof.
+  revert b c. induction a as [|x a IH]; intros [|y b] [|z c]; cbn [str_compare]; try discriminate; try reflexivity.
+  destruct (Nat.compare_spec x y) as [->|Hxy|Hxy]; try discriminate.
+  - destruct (Nat.compare_spec y z) as [->|Hyz|Hyz]; try discriminate.
+    + apply IH.
+    + reflexivity.
+  - intros _. destruct (Nat.compare_spec y z) as [->|Hyz|Hyz]; try discriminate; intros _.
+    + destruct (Nat.compare_spec x z); try lia; reflexivity.
+    + destruct (Nat.compare_spec x z); try lia; reflexivity.
+Qed.
+Lemma str_compare_total_order a b :
+  (str_compare a b = Lt /\ a <> b /\ str_compare b a = Gt) \/
+  (str_compare a b = Eq /\ a = b /\ str_compare b a = Eq) \/
+  (str_compare a b = Gt /\ a <> b /\ str_compare b a = Lt).
+Proof.
+  rewrite (str_compare_antisym a b). destruct (str_compare a b) eqn:E; cbn [CompOpp].
+  - right; left. apply str_compare_eq in E. auto.
+  - left. repeat split; auto. intros ->. assert (H: str_compare b b = Eq) by (apply str_compare_eq; reflexivity). congruence.
+  - right; right. repeat split; auto. intros ->. assert (H: str_compare b b = Eq) by (apply str_compare_eq; reflexivity). congruence.
+Qed.
+
 (* strcmp's order: at the first difference the smaller unsigned byte decides, a proper prefix is smaller *)
 Definition lex_lt (a b : list byte) : Prop :=
   exists p, (exists y t, a = p /\ b = p ++ y :: t) \/
